@@ -43,6 +43,10 @@ TReset ==
   /\ texts' = << >>
   /\ UNCHANGED used
 
+\* a stateless law observed by the driver: the parameter block of a password-wrapped key is what was asked for and
+\* survives params() -> password_wrap_with_params (PASERK PBKW); the event carries the comparison's operands' ids
+TLaw == IsEvent("Law") /\ E.lhs = E.rhs /\ UNCHANGED <<ivars, texts>>
+
 \* informational events (tamper descriptions, key generation notes): no specification action
 TNote == IsEvent("Note") /\ UNCHANGED <<ivars, texts>>
 
@@ -111,7 +115,7 @@ TGenRet ==
 
 Matched ==
   \/ TGenCall \/ TGenRet
-  \/ TReset \/ TNote \/ TPair
+  \/ TReset \/ TNote \/ TPair \/ TLaw
   \/ TSealCall \/ TDraw \/ TFooterEncode \/ TClaimsEncode \/ TSealRet
   \/ TToString \/ TParseRet
   \/ TUnsealCall \/ TDecode \/ TValidate \/ TUnsealRet
